@@ -777,11 +777,16 @@ def c07(ck):
         if c["mode"] == "deadline":
             src = c["src"]
             # the outermost try has a plain-value handler, an endless body and no endless finally: the handler's value
-            m = re.match(r"^\(try (\(lp 0\)|\(rcl\)|\(spin\)|\(sleep 100000\)|@\(future \(sleep 100000\)\)|\(eval '\(lp 0\)\)|\(eval \(list 'sleep 100000\)\)|\(let \[fc \(future \(busy! 30000\)\)\] \(future-cancel fc\) @fc\)|\(swap! spa \(fn \[v\] \(reset! spa \(\+ v 1\)\) v\)\)) \(catch e \(trace! :hh\) :h\)( \(finally \(trace! :ff\) :h\))?\)$", src)
+            m = re.match(r"^\(try (\(lp 0\)|\(rcl\)|\(spin\)|\(sleep 100000\)|@\(future \(sleep 100000\)\)|\(eval '\(lp 0\)\)|\(eval \(list 'sleep 100000\)\)|\(let \[fc \(future \(busy! 30000\)\)\] \(future-cancel fc\) @fc\)|\(swap! spa \(fn \[v\] \(reset! spa \(\+ v 1\)\) v\)\)|@oldfut) \(catch e \(trace! :hh\) :h\)( \(finally \(trace! :ff\) :h\))?\)$", src)
             if m:
                 c["opt"] = {"expect": "value", "effects": ":hh" + (" :ff" if m.group(2) else "")}
             elif "try" not in src:
                 c["opt"] = {"expect": "timeout"}
+    # a future started OUTSIDE the try (under the caller's context) and awaited inside its body (under the body's budget)
+    outer = "(let [fo (future (sleep 100000))] (try @fo (catch e (trace! :hh) :h)))"
+    cases.append({"kind": "cancel", "tag": "try", "shape": 900, "mode": "deadline", "src": outer, "bound": 4,
+                  "id": "deadline:900", "opt": {"expect": "value", "effects": ":hh"}})
+    cases.append({"kind": "cancel", "tag": "try", "shape": 900, "mode": "cancel", "src": outer, "bound": 4, "id": "cancel:900"})
     canc = [c for c in cases if c["mode"] == "cancel"]
     dl = [c for c in cases if c["mode"] == "deadline"]
     if ck.quick:
